@@ -715,6 +715,19 @@ func corpus(w *bufio.Writer) {
 	put("parse | +proj=tmerc +lat_0=0 +lon_0=9 +a=6377397.155 +b=6356078.963 +towgs84=598.1,73.7,418.2")
 	put("parse | +proj=merc +lon_0=0 +a=6371000 +b=6371000")
 	put("parse | +proj=merc +lon_0=0 +ellps=intl +R_A")
+	// +R_A (authalic radius: DeriveConstants shrinks a, zeroes es, recomputes a2/b2/ep2) through every projection
+	// family and as source/destination of a datum shift; before, only the parse line above carried it
+	for _, d := range []string{
+		"+proj=tmerc +lat_0=0 +lon_0=9 +k=0.9996 +x_0=500000 +y_0=0 +ellps=intl +R_A +towgs84=-87,-98,-121",
+		"+proj=utm +zone=32 +ellps=intl +R_A +towgs84=-87,-98,-121",
+		"+proj=longlat +ellps=clrk66 +R_A +towgs84=-8,160,176",
+		"+proj=aea +lat_1=29.5 +lat_2=45.5 +lat_0=23 +lon_0=9 +x_0=0 +y_0=0 +ellps=GRS80 +R_A +towgs84=1,2,3",
+		"+proj=eqdc +lat_1=33 +lat_2=45 +lat_0=39 +lon_0=9 +x_0=0 +y_0=0 +ellps=GRS80 +R_A +towgs84=1,2,3",
+		"+proj=merc +lon_0=9 +x_0=0 +y_0=0 +ellps=bessel +R_A +towgs84=598.1,73.7,418.2",
+		"+proj=lcc +lat_1=49 +lat_2=44 +lat_0=46.5 +lon_0=9 +x_0=700000 +y_0=6600000 +ellps=GRS80 +R_A +towgs84=10,-20,30",
+	} {
+		put(trLine([]string{wgs, d, wgs}, 9.5, 47.25))
+	}
 	put("parse | +proj=longlat +datum=WGS84 +from_greenwich=2.5")
 }
 
